@@ -36,6 +36,7 @@ func extraFacts(lf *leanFile) {
 	capabilityFacts(lf)
 	tarfsFacts(lf)
 	compactFacts(lf)
+	extractDirFacts(lf)
 	lockFacts(lf)
 	errutilFacts(lf)
 	refFacts(lf)
